@@ -23,7 +23,15 @@
       `stop = true` the repaired loop that also ends with the Signature Segment list;
     * `KeyMode.skiOnly` is what the current tree does (router keys selected by SKI only, F10),
       `KeyMode.skiAndAs` is the repaired behaviour (the key must also be registered for the AS of
-      the corresponding Secure_Path segment).
+      the corresponding Secure_Path segment);
+    * THE KEY TABLE IS SHARED with the RTR threads; every lookup of one validation call takes the table's
+      read lock separately.  A call therefore does not see "the" table but a sequence of snapshots:
+      `View = Nat → Table`, `V k` being the table as the k-th lookup of the call finds it (lookups are
+      numbered in program order: one per Signature Segment in `check_router_keys`, then one per iteration
+      of the validation loop).  `validate … T` (one fixed table) is the special case `fun _ => T`;
+    * `validate_signature` = `validateSignature`: the signature field must be the strict DER encoding of an
+      ECDSA-Sig-Value (`ECDSA_verify` re-encodes what it parsed and compares; parameter `wf`), only then
+      the uninterpreted `verify` (ECDSA_do_verify) is asked; anything else is `error`.
 -/
 namespace Rtr.Bgpsec
 
@@ -161,13 +169,22 @@ def keyOk (m : KeyMode) (ski : List Nat) (asn : Nat) (k : Key) : Bool :=
 /-- the keys that may validate hop (`ski`, `asn`) -/
 def keysFor (m : KeyMode) (T : Table) (ski : List Nat) (asn : Nat) : List Key := T.filter (keyOk m ski asn)
 
+/-- The key table as one call sees it: `V k` is the table found by the k-th lookup of the call
+    (each lookup holds the table's read lock on its own; writers may run in between). -/
+abbrev View := Nat → Table
+
 /-- `check_router_keys`: first Signature Segment without a usable router key → `ROUTER_KEY_NOT_FOUND`.
-    (`skiAndAs`: the repaired function walks the Secure_Path in parallel.) -/
-def checkRouterKeys (m : KeyMode) (T : Table) : List SigSeg → List PathSeg → Rc
-  | [], _ => .success
-  | s :: ss, ps =>
+    (`skiAndAs`: the repaired function walks the Secure_Path in parallel.)  `k` is the number of the
+    lookup made for the first segment of the list. -/
+def checkRouterKeysV (m : KeyMode) (V : View) : Nat → List SigSeg → List PathSeg → Rc
+  | _, [], _ => .success
+  | k, s :: ss, ps =>
     let asn := (ps.head?.map (·.asn)).getD 0
-    if (keysFor m T s.ski asn).isEmpty then .routerKeyNotFound else checkRouterKeys m T ss ps.tail
+    if (keysFor m (V k) s.ski asn).isEmpty then .routerKeyNotFound else checkRouterKeysV m V (k + 1) ss ps.tail
+
+/-- `check_router_keys` against a table nobody changes meanwhile -/
+def checkRouterKeys (m : KeyMode) (T : Table) (ss : List SigSeg) (ps : List PathSeg) : Rc :=
+  checkRouterKeysV m (fun _ => T) 0 ss ps
 
 /-! ## the code: validation -/
 
@@ -179,6 +196,13 @@ deriving DecidableEq, Repr, Inhabited
 
 def VRes.rc : VRes → Rc
   | .valid => .valid | .notValid => .notValid | .error => .error
+
+/-- `validate_signature` for one router key whose public key loads (`verify` answers `error` for one
+    that does not): `ECDSA_verify` = "the `sig_len` octets are exactly the DER encoding of the
+    ECDSA-Sig-Value they parse to" (`wf`; otherwise -1 = `error`), then the signature check proper. -/
+def validateSignature {H : Type} (wf : List Nat → Bool) (verify : List Nat → H → List Nat → VRes)
+    (spki : List Nat) (h : H) (sig : List Nat) : VRes :=
+  if wf sig then verify spki h sig else .error
 
 section crypto
 variable {H : Type} (hash : List Nat → H) (verify : List Nat → H → List Nat → VRes)
@@ -195,15 +219,19 @@ def tryKeys (m : KeyMode) (h : H) (sig : List Nat) (asn : Nat) : List Key → Rc
     if r = .valid then .valid else tryKeys m h sig asn ks r
 
 /-- the `for (offset = 0, next_offset = 0; offset <= size && retval == VALID; offset += next_offset)`
-    loop.  `ss`/`ps` are `tmp_sig` and the Secure_Path cursor, `off` is `offset`.
+    loop.  `ss`/`ps` are `tmp_sig` and the Secure_Path cursor, `off` is `offset`, `k` the number of the
+    table lookup this iteration makes.
       * `ss = []` is `tmp_sig == NULL`: the current C code evaluates `tmp_sig->next` if the loop
         condition `offset <= size` still holds there → `fault` (`stop = false`; finding "loop overrun");
         the repaired loop also tests `tmp_sig` (`stop = true`);
       * the hashed bytes are the stream suffix from `off` (`read_stream_at` with `len = size - off`);
+      * `retval` is `RTR_BGPSEC_SUCCESS` (the status of `hash_byte_sequence`) when the key loop starts: a
+        lookup that returns NO key leaves it there, the loop condition `retval == VALID` fails and
+        `SUCCESS` (0, not VALID) is the answer of the call;
       * `next_offset = sig_len(next segment, or this one if it is the last) + 20 + 2 + 6`. -/
-def valLoop (m : KeyMode) (stop : Bool) (T : Table) (stream : List Nat) : List SigSeg → List PathSeg → Nat → Rc
-  | [], _, off => if stop then .valid else if off ≤ stream.length then .fault else .valid
-  | s :: ss, ps, off =>
+def valLoopV (m : KeyMode) (stop : Bool) (V : View) (stream : List Nat) : Nat → List SigSeg → List PathSeg → Nat → Rc
+  | _, [], _, off => if stop then .valid else if off ≤ stream.length then .fault else .valid
+  | k, s :: ss, ps, off =>
     if stream.length < off then .valid
     else
       let nextLen := match ss with
@@ -211,19 +239,29 @@ def valLoop (m : KeyMode) (stop : Bool) (T : Table) (stream : List Nat) : List S
         | [] => s.sig.length
       let h := hash (stream.drop off)
       let asn := (ps.head?.map (·.asn)).getD 0
-      let r := tryKeys verify m h s.sig asn (searchBySki T s.ski) .valid
-      if r = .valid then valLoop m stop T stream ss ps.tail (off + (nextLen + 28)) else r
+      let r := tryKeys verify m h s.sig asn (searchBySki (V k) s.ski) .success
+      if r = .valid then valLoopV m stop V stream (k + 1) ss ps.tail (off + (nextLen + 28)) else r
 
-/-- `rtr_bgpsec_validate_as_path` after the NULL checks of `data` and `table` -/
-def validate (m : KeyMode) (stop : Bool) (d : Data) (T : Table) : Rc :=
+/-- the loop against a table nobody changes meanwhile -/
+def valLoop (m : KeyMode) (stop : Bool) (T : Table) (stream : List Nat) (ss : List SigSeg) (ps : List PathSeg) (off : Nat) : Rc :=
+  valLoopV hash verify m stop (fun _ => T) stream 0 ss ps off
+
+/-- `rtr_bgpsec_validate_as_path` after the NULL checks of `data` and `table`, the table being whatever
+    each lookup finds: lookups `0 … n-1` are those of `check_router_keys` (one per Signature Segment, in
+    order, until the first one that finds nothing), lookup `n + i` is the one of loop iteration `i`. -/
+def validateV (m : KeyMode) (stop : Bool) (d : Data) (V : View) : Rc :=
   if d.path = [] ∨ d.sigs = [] then .invalidArguments
   else if d.path.length ≠ d.sigs.length then .wrongSegmentCount
   else if d.alg ≠ 1 then .unsupportedAlgorithmSuite
   else if d.nlri.afi ≠ 1 ∧ d.nlri.afi ≠ 2 then .unsupportedAfi
   else
-    match checkRouterKeys m T d.sigs d.path with
-    | .success => valLoop hash verify m stop T (alignBytes .validation d) d.sigs d.path 0
+    match checkRouterKeysV m V 0 d.sigs d.path with
+    | .success => valLoopV hash verify m stop V (alignBytes .validation d) d.sigs.length d.sigs d.path 0
     | e => e
+
+/-- `rtr_bgpsec_validate_as_path` while nobody changes the table -/
+def validate (m : KeyMode) (stop : Bool) (d : Data) (T : Table) : Rc :=
+  validateV hash verify m stop d (fun _ => T)
 
 /-- `rtr_bgpsec_validate_as_path` including `!data || !table` -/
 def validateArgs (m : KeyMode) (stop : Bool) (d : Option Data) (T : Option Table) : Rc :=
@@ -236,6 +274,11 @@ def validateArgs (m : KeyMode) (stop : Bool) (d : Option Data) (T : Option Table
     `data->nlri->afi` unchecked: finding Fbgp4) -/
 def validateEntry (m : KeyMode) (stop : Bool) (d : Option Data) (nlriNull : Bool) (T : Option Table) : Rc :=
   if nlriNull then .invalidArguments else validateArgs hash verify m stop d T
+
+/-- the whole of `rtr_bgpsec_validate_as_path` + `validate_signature`: table snapshots per lookup,
+    strict-DER requirement on every signature field, uninterpreted hash / ECDSA check -/
+def validateFull (wf : List Nat → Bool) (m : KeyMode) (stop : Bool) (d : Data) (V : View) : Rc :=
+  validateV hash (validateSignature wf verify) m stop d V
 
 end crypto
 
